@@ -4,6 +4,7 @@ import numpy as np
 from .tn_core import TOL, ISO_TOL, arrays_of
 from .tn_ctor import TNCtor, cplx
 from . import dense as dn
+from .base import HarnessError
 
 
 def site_matrix(A, kind, mode):
@@ -271,6 +272,51 @@ class TNOps(TNCtor):
         elif what == 'ghz':
             for j in range(n):
                 r.A[j] = np.where(r.A[j] != 0, 1.0, 0.0)
+        elif what == 'sparsify':
+            # exact zeros scattered inside one site tensor (zeros are allowed everywhere; the object stays block sparse)
+            if np.issubdtype(r.A[i].dtype, np.integer):
+                return 'skipped'
+            keep = g.random(size=r.A[i].shape) < float(g.uniform(0.3, 0.8))
+            r.A[i] = np.where(keep, r.A[i], 0)
+            self.probe('site_tensor_with_scattered_exact_zeros')
+        elif what == 'basis_state':
+            # a computational-basis-like object: one non-zero entry per site along a connected path of bond indices
+            prev = 0
+            new = []
+            for j in range(n):
+                T = np.asarray(r.A[j])
+                sub = np.take(T, prev, axis=-2)
+                nz = np.argwhere(sub != 0)
+                if len(nz) == 0 or np.issubdtype(T.dtype, np.integer):
+                    return 'skipped'
+                pick = nz[int(g.integers(0, len(nz)))]
+                Z = np.zeros_like(T)
+                idx = tuple(pick[:-1]) + (prev, int(pick[-1]))
+                Z[idx] = T[idx]
+                new.append(Z)
+                prev = int(pick[-1])
+            for j in range(n):
+                r.A[j] = new[j]
+            self.probe('basis_state_object')
+        elif what == 'bond_permute':
+            # user-level change of the bond basis: permute the virtual index of bond i+1 on both adjacent tensors and in the
+            # label list (same object, same block structure, labels no longer in the order the library produced)
+            if i + 1 >= n or len(r.qD[i + 1]) < 2 or not dn.is_int_1d_array(r.qD[i + 1]):
+                return 'skipped'
+            perm = g.permutation(len(r.qD[i + 1]))
+            r.A[i] = np.ascontiguousarray(np.take(r.A[i], perm, axis=-1))
+            r.A[i + 1] = np.ascontiguousarray(np.take(r.A[i + 1], perm, axis=-2))
+            r.qD[i + 1] = np.array(r.qD[i + 1])[perm]
+            self.probe('bond_basis_permuted_by_user')
+        elif what == 'charge_offset':
+            # user-level relabelling: the same constant added to every bond label (charge conservation only sees differences)
+            if not all(dn.is_int_1d_array(q) for q in r.qD):
+                return 'skipped'
+            c = int(g.integers(-3, 4)) or 2
+            if max(int(np.abs(q).max()) for q in r.qD) > 2 ** 60:
+                return 'skipped'
+            r.qD = [np.array(q) + c for q in r.qD]
+            self.probe('bond_labels_offset_by_user')
         else:
             return 'skipped'
         o.traj = None
@@ -278,6 +324,11 @@ class TNOps(TNCtor):
         for x in siblings:
             x.traj = None
             self.resync(x)
+        if what in ('bond_permute', 'charge_offset') and dense_before is not None and not o.retired:
+            # harness self-check: these edits are gauge changes, the denoted vector / operator is the same
+            if not np.array_equal(o.dense, dense_before) and float(np.linalg.norm(o.dense - dense_before)) > TOL * scale_before:
+                raise HarnessError(f'{what} changed the dense model')
+            self.check_c02(o, f'{what} (harness self-check)')
         if what in ('scale', 'scale_inplace', 'nearly_one') and dense_before is not None and not o.retired and not harness_shared:
             # history refinement: rescaling ONE site tensor rescales the denoted vector / operator by that factor
             # (fails when the library handed out an object whose sites share one array)
